@@ -111,7 +111,7 @@ def check_C01(chk):
             k = next(nid)
             cases.append({"id": k, "len": L, "nsend": k % 2, "nrecv": k % 3 == 0 and 1 or 0, "nshm": k % 2, "level": "typed"})
         # a few transient-refusal patterns too: "does not depend on how the transport happens to split the payload"
-        for pat in ("1", "01", "001", "0101"):
+        for pat in ("1", "01", "001", "0101", "2", "02", "002", "012", "0102", "03", "004", "0013"):
             for L in (lens[len(lens) // 2], lens[-1], F.ffs(Sv) + 3 * F.fs(Sv) + 11):
                 cases.append({"id": next(nid), "len": L, "nsend": 1, "nrecv": 0, "nshm": 1, "faults": pat, "level": "platform"})
         jobs.append((bins["default"], S, cases, "default", True))
